@@ -71,18 +71,18 @@ def history(rng, maxsteps):
             r = rng.random()
             if s["file"] == "missing" and s["ver"] == 0:
                 # never written yet: mostly create it, sometimes start broken (the child-with-no-file pattern)
-                r = rng.choice([0.15, 0.15, 0.15, 0.75, 0.85]) if rng.random() < 0.7 else r
-            if r < 0.2:
+                r = 0.3 if rng.random() < 0.75 else rng.choice([0.8, 0.9])
+            if r < 0.25:
                 pass                                                        # file untouched
-            elif r < 0.45:
-                s["ver"] += 1; s["mt"] += rng.randint(1, 5); s["file"] = "ok"  # proper update
             elif r < 0.55:
+                s["ver"] += 1; s["mt"] += rng.randint(1, 5); s["file"] = "ok"  # proper update
+            elif r < 0.63:
                 s["ver"] += 1; s["mt"] -= rng.choice([0, 0, 1]); s["file"] = "ok"  # new content, time not advanced
-            elif r < 0.62:
+            elif r < 0.70:
                 s["mt"] += 1; s["file"] = "ok" if s["ver"] else s["file"]     # touched only
-            elif r < 0.8:
+            elif r < 0.82:
                 s["mt"] += 1; s["file"] = "bad"
-            elif r < 0.92:
+            elif r < 0.90:
                 s["file"] = "missing"
             else:
                 s["alt"] ^= 1; s["ver"] += 1; s["mt"] += rng.choice([-3, 0, 2]); s["file"] = "ok"  # other path
